@@ -71,10 +71,12 @@ func Load(repo string) (*Prog, error) {
 	// go/ssa keeps `if <constant> { … }` as a real branch; statements guarded by a false constant (`const debug = false`)
 	// are dead in every execution, so they are removed from the syntax before the SSA form (and the twin normal forms)
 	// are built
+	InlinedAway, inlinedSites = map[types.Object]bool{}, map[types.Object]int{}
 	for _, pk := range pkgs {
 		if strings.HasPrefix(pk.PkgPath, ModPath) && pk.TypesInfo != nil {
-			inlinePredicates(pk.TypesInfo, pk.Syntax)
-			inlinePredicates(pk.TypesInfo, pk.Syntax) // a predicate written in terms of another one
+			inlineHelpers(pk.TypesInfo, pk.Syntax)
+			inlineHelpers(pk.TypesInfo, pk.Syntax) // a helper written in terms of another one
+			markInlinedAway(pk.TypesInfo, pk.Syntax)
 			specialiseConstParams(pk.TypesInfo, pk.Syntax)
 			pruneConstIfs(pk.TypesInfo, pk.Syntax)
 		}
@@ -106,6 +108,9 @@ func Load(repo string) (*Prog, error) {
 	add = func(f *ssa.Function) {
 		if f == nil || seen[f] || f.Synthetic != "" && !strings.HasPrefix(f.Synthetic, "package init") {
 			return
+		}
+		if o := f.Object(); o != nil && InlinedAway[o] {
+			return // a one-line helper every call of which was replaced by its body
 		}
 		if f.Synthetic != "" { // package initializer: keep (global initialisers live there)
 		}
@@ -537,353 +542,6 @@ func specialiseConstParams(info *types.Info, files []*ast.File) {
 				return true
 			}, nil)
 		}
-	}
-}
-
-// inlinePredicates: an unexported function or method whose whole body is `return <boolean expression>` - a named
-// condition such as `func (op *CorOp[T]) hasSender() bool { return op != nil && op.cor != nil }` - is, wherever it is
-// called with plain operands (identifiers, field selections, literals), replaced in the syntax by a copy of that
-// expression with the parameters substituted, before the SSA form is built: the rules then see the comparisons the
-// name stands for. Only operands without side effects are substituted (the expression may evaluate them lazily or
-// twice), and only where operand and parameter have the same type (a concrete pointer passed for an interface
-// parameter compares differently with nil).
-func inlinePredicates(info *types.Info, files []*ast.File) {
-	type cand struct {
-		expr    ast.Expr
-		params  []types.Object // receiver first for methods; nil entries for unnamed ones
-		ptypes  []types.Type
-		hasRecv bool
-	}
-	isBool := func(t types.Type) bool {
-		b, ok := t.Underlying().(*types.Basic)
-		return ok && b.Kind() == types.Bool
-	}
-	var pure func(e ast.Expr) bool
-	pure = func(e ast.Expr) bool {
-		switch x := e.(type) {
-		case *ast.Ident, *ast.BasicLit:
-			return true
-		case *ast.ParenExpr:
-			return pure(x.X)
-		case *ast.SelectorExpr:
-			return pure(x.X)
-		case *ast.StarExpr:
-			return pure(x.X)
-		case *ast.UnaryExpr:
-			return x.Op != token.AND && x.Op != token.ARROW && pure(x.X)
-		case *ast.BinaryExpr:
-			return pure(x.X) && pure(x.Y)
-		case *ast.IndexExpr:
-			return pure(x.X) && pure(x.Index)
-		case *ast.CallExpr:
-			if x.Ellipsis.IsValid() || !pure(x.Fun) {
-				return false
-			}
-			for _, a := range x.Args {
-				if !pure(a) {
-					return false
-				}
-			}
-			return true
-		}
-		return false
-	}
-	var simple func(e ast.Expr) bool
-	simple = func(e ast.Expr) bool {
-		switch x := e.(type) {
-		case *ast.Ident, *ast.BasicLit:
-			return true
-		case *ast.ParenExpr:
-			return simple(x.X)
-		case *ast.SelectorExpr:
-			return simple(x.X)
-		case *ast.StarExpr:
-			return simple(x.X)
-		}
-		return false
-	}
-	cands := map[*types.Func]*cand{}
-	for _, f := range files {
-		for _, d := range f.Decls {
-			fd, ok := d.(*ast.FuncDecl)
-			if !ok || fd.Body == nil || len(fd.Body.List) != 1 {
-				continue
-			}
-			fo, isF := info.Defs[fd.Name].(*types.Func)
-			if !isF || fo.Exported() {
-				continue
-			}
-			sig, _ := fo.Type().(*types.Signature)
-			if sig == nil || sig.Variadic() || sig.Results().Len() != 1 || !isBool(sig.Results().At(0).Type()) {
-				continue
-			}
-			ret, isR := fd.Body.List[0].(*ast.ReturnStmt)
-			if !isR || len(ret.Results) != 1 || !pure(ret.Results[0]) {
-				continue
-			}
-			cd := &cand{expr: ret.Results[0]}
-			okNames := true
-			if fd.Recv != nil && len(fd.Recv.List) == 1 {
-				cd.hasRecv = true
-				var ro types.Object
-				if len(fd.Recv.List[0].Names) == 1 {
-					ro = info.Defs[fd.Recv.List[0].Names[0]]
-				}
-				cd.params = append(cd.params, ro)
-				cd.ptypes = append(cd.ptypes, sig.Recv().Type())
-			}
-			i := 0
-			for _, fl := range fd.Type.Params.List {
-				if len(fl.Names) == 0 {
-					cd.params = append(cd.params, nil)
-					cd.ptypes = append(cd.ptypes, sig.Params().At(i).Type())
-					i++
-					continue
-				}
-				for _, nm := range fl.Names {
-					cd.params = append(cd.params, info.Defs[nm])
-					cd.ptypes = append(cd.ptypes, sig.Params().At(i).Type())
-					i++
-				}
-			}
-			// not recursive
-			ast.Inspect(cd.expr, func(n ast.Node) bool {
-				if id, isID := n.(*ast.Ident); isID {
-					if u, isFn := info.Uses[id].(*types.Func); isFn && u.Origin() == fo {
-						okNames = false
-					}
-				}
-				return true
-			})
-			if okNames {
-				cands[fo] = cd
-			}
-		}
-	}
-	if len(cands) == 0 {
-		return
-	}
-	// same type up to the instantiation of a generic type
-	var sameShape func(a, b types.Type) bool
-	sameShape = func(a, b types.Type) bool {
-		if types.Identical(a, b) {
-			return true
-		}
-		if pa, ok := a.(*types.Pointer); ok {
-			pb, ok2 := b.(*types.Pointer)
-			return ok2 && sameShape(pa.Elem(), pb.Elem())
-		}
-		na, ok1 := a.(*types.Named)
-		nb, ok2 := b.(*types.Named)
-		if ok1 && ok2 {
-			return na.Origin() == nb.Origin()
-		}
-		if sa, ok := a.(*types.Slice); ok {
-			sb, ok2 := b.(*types.Slice)
-			return ok2 && sameShape(sa.Elem(), sb.Elem())
-		}
-		_, ta := a.(*types.TypeParam)
-		_, tb := b.(*types.TypeParam)
-		return ta && tb
-	}
-	var clone func(e ast.Expr, subst map[types.Object]ast.Expr) ast.Expr
-	var tsub map[*types.TypeParam]types.Type
-	cloneIdent := func(x *ast.Ident) *ast.Ident {
-		n := *x
-		if o, ok := info.Uses[x]; ok {
-			info.Uses[&n] = o
-		}
-		if tv, ok := info.Types[x]; ok {
-			tv.Type = substType(tv.Type, tsub)
-			info.Types[&n] = tv
-		}
-		if inst, ok := info.Instances[x]; ok {
-			info.Instances[&n] = inst
-		}
-		return &n
-	}
-	clone = func(e ast.Expr, subst map[types.Object]ast.Expr) ast.Expr {
-		var out ast.Expr
-		switch x := e.(type) {
-		case *ast.Ident:
-			if o := info.Uses[x]; o != nil {
-				if r, ok := subst[o]; ok {
-					return r
-				}
-			}
-			return cloneIdent(x)
-		case *ast.BasicLit:
-			n := *x
-			out = &n
-		case *ast.ParenExpr:
-			n := *x
-			n.X = clone(x.X, subst)
-			out = &n
-		case *ast.SelectorExpr:
-			n := *x
-			n.X = clone(x.X, subst)
-			n.Sel = cloneIdent(x.Sel)
-			if sel, ok := info.Selections[x]; ok {
-				info.Selections[&n] = sel
-			}
-			out = &n
-		case *ast.StarExpr:
-			n := *x
-			n.X = clone(x.X, subst)
-			out = &n
-		case *ast.UnaryExpr:
-			n := *x
-			n.X = clone(x.X, subst)
-			out = &n
-		case *ast.BinaryExpr:
-			n := *x
-			n.X = clone(x.X, subst)
-			n.Y = clone(x.Y, subst)
-			out = &n
-		case *ast.IndexExpr:
-			n := *x
-			n.X = clone(x.X, subst)
-			n.Index = clone(x.Index, subst)
-			out = &n
-		case *ast.CallExpr:
-			n := *x
-			n.Fun = clone(x.Fun, subst)
-			n.Args = make([]ast.Expr, len(x.Args))
-			for i, a := range x.Args {
-				n.Args[i] = clone(a, subst)
-			}
-			out = &n
-		default:
-			return e
-		}
-		if tv, ok := info.Types[e]; ok {
-			tv.Type = substType(tv.Type, tsub)
-			info.Types[out] = tv
-		}
-		return out
-	}
-	// a method call inside the expression cannot be re-targeted to another instantiation of its receiver type
-	hasMethodCall := func(e ast.Expr) bool {
-		found := false
-		ast.Inspect(e, func(n ast.Node) bool {
-			if sx, ok := n.(*ast.SelectorExpr); ok {
-				if sel, isSel := info.Selections[sx]; isSel && sel.Kind() != types.FieldVal {
-					found = true
-				}
-			}
-			if id, ok := n.(*ast.Ident); ok {
-				if fo, isF := info.Uses[id].(*types.Func); isF {
-					if sg, _ := fo.Type().(*types.Signature); sg != nil && (sg.TypeParams().Len() > 0 || fo.Origin() != fo) {
-						found = true // call of a generic function: its instantiation is recorded per identifier
-					}
-				}
-			}
-			return true
-		})
-		return found
-	}
-	for _, f := range files {
-		astutil.Apply(f, func(c *astutil.Cursor) bool {
-			call, ok := c.Node().(*ast.CallExpr)
-			if !ok || call.Ellipsis.IsValid() {
-				return true
-			}
-			switch c.Parent().(type) {
-			case *ast.GoStmt, *ast.DeferStmt, *ast.ExprStmt:
-				return true
-			}
-			fun := call.Fun
-			for {
-				switch x := fun.(type) {
-				case *ast.ParenExpr:
-					fun = x.X
-					continue
-				case *ast.IndexExpr:
-					fun = x.X
-					continue
-				case *ast.IndexListExpr:
-					fun = x.X
-					continue
-				}
-				break
-			}
-			var id *ast.Ident
-			var recv ast.Expr
-			switch x := fun.(type) {
-			case *ast.Ident:
-				id = x
-			case *ast.SelectorExpr:
-				id = x.Sel
-				if sel, isSel := info.Selections[x]; isSel {
-					if sel.Kind() != types.MethodVal || len(sel.Index()) != 1 {
-						return true
-					}
-					recv = x.X
-				}
-			}
-			if id == nil {
-				return true
-			}
-			fo, _ := info.Uses[id].(*types.Func)
-			if fo == nil {
-				return true
-			}
-			cd := cands[fo.Origin()]
-			if cd == nil || cd.hasRecv != (recv != nil) {
-				return true
-			}
-			args := call.Args
-			if recv != nil {
-				args = append([]ast.Expr{recv}, args...)
-			}
-			if len(args) != len(cd.params) {
-				return true
-			}
-			subst := map[types.Object]ast.Expr{}
-			for i, a := range args {
-				tv, okT := info.Types[a]
-				if !simple(a) || !okT || tv.Type == nil || !sameShape(tv.Type, cd.ptypes[i]) {
-					return true
-				}
-				if cd.params[i] != nil {
-					subst[cd.params[i]] = a
-				}
-			}
-			// type parameters of the helper read as the type arguments of this call
-			tsub = map[*types.TypeParam]types.Type{}
-			sig := fo.Origin().Type().(*types.Signature)
-			if rtp := sig.RecvTypeParams(); rtp != nil && rtp.Len() > 0 && recv != nil {
-				rt := info.Types[recv].Type
-				if pt, isP := rt.(*types.Pointer); isP {
-					rt = pt.Elem()
-				}
-				nt, isN := rt.(*types.Named)
-				if !isN || nt.TypeArgs().Len() != rtp.Len() {
-					return true
-				}
-				for i := 0; i < rtp.Len(); i++ {
-					tsub[rtp.At(i)] = nt.TypeArgs().At(i)
-				}
-			}
-			if tp := sig.TypeParams(); tp != nil && tp.Len() > 0 {
-				inst, okI := info.Instances[id]
-				if !okI || inst.TypeArgs.Len() != tp.Len() {
-					return true
-				}
-				for i := 0; i < tp.Len(); i++ {
-					tsub[tp.At(i)] = inst.TypeArgs.At(i)
-				}
-			}
-			if len(tsub) > 0 && hasMethodCall(cd.expr) {
-				return true
-			}
-			repl := &ast.ParenExpr{Lparen: call.Pos(), X: clone(cd.expr, subst), Rparen: call.End()}
-			if tv, okT := info.Types[call]; okT {
-				info.Types[repl] = tv
-			}
-			c.Replace(repl)
-			return false
-		}, nil)
 	}
 }
 
